@@ -129,6 +129,11 @@ func (p *Packet) unpackWithoutCompression(r io.Reader) error {
 		return err
 	}
 
+	// the protocol maximum covers the id and the payload
+	if Length < 0 || Length > MaxDataLength {
+		return fmt.Errorf("uncompressed packet error: packet length is %d", Length)
+	}
+
 	var PacketID VarInt
 	n, err := PacketID.ReadFrom(r)
 	if err != nil {
@@ -199,6 +204,10 @@ func (p *Packet) unpackWithCompression(r io.Reader, threshold int) error {
 		}
 		DataLength -= VarInt(n3)
 	} else {
+		// not compressed: what follows the data length is the id and the payload, and the protocol maximum covers both
+		if int64(PacketLength)-n2 > MaxDataLength {
+			return fmt.Errorf("compressed packet error: size of %d is larger than protocol maximum of %d", int64(PacketLength)-n2, MaxDataLength)
+		}
 		n3, err := PacketID.ReadFrom(r)
 		if err != nil {
 			return err
